@@ -600,6 +600,7 @@ var assumptionText = map[string]string{
 	"A-SORT":   "A-SORT: sort.Slice leaves a permutation with no inversion w.r.t. less",
 	"A-POW":    "A-POW: math.Pow(2,k) is exactly 2^k for integral 0<=k<=1023 and +Inf above",
 	"A-CVT":    "A-CVT: amd64 float->int conversion of out-of-range values yields the integer-indefinite value",
+	"A-ITER":   "A-ITER: a membuffers iterator enumerates a fixed finite sequence of its message (seq_len / seq_at), in order",
 	"T-FP":     "T-FP: float64 arithmetic is IEEE-754 binary64 round-to-nearest-even as in SMT-LIB FloatingPoint",
 }
 
@@ -612,6 +613,24 @@ func (P *Program) describeAssumption(a string) string {
 	}
 	if strings.HasPrefix(a, "A-PURE:") {
 		return "A-PURE: methods of " + strings.TrimPrefix(a, "A-PURE:") + " are observationally pure accessors of immutable message objects (uninterpreted functions of their arguments; membuffers bodies not verified)"
+	}
+	if strings.HasPrefix(a, "A-SPI:") {
+		return "A-SPI: consumer SPI method " + strings.TrimPrefix(a, "A-SPI:") + " without an explicit contract: arbitrary result, no effect on library state"
+	}
+	if strings.HasPrefix(a, "A-STD-PURE:") {
+		return "A-STD-PURE: standard-library function " + strings.TrimPrefix(a, "A-STD-PURE:") + " is effect-free on library state (no pointer/map/channel/function argument): arbitrary result"
+	}
+	if strings.HasPrefix(a, "DEVIRTUALISED:") {
+		return "note (not an assumption): an interface call was additionally tied to the real body of " + strings.TrimPrefix(a, "DEVIRTUALISED:") + ", inlined from the current source"
+	}
+	if strings.HasPrefix(a, "CLOSURE-SPEC:") {
+		return "note (not an assumption): closure " + strings.TrimPrefix(a, "CLOSURE-SPEC:") + " is summarised by its own verified contract at the use site"
+	}
+	if strings.HasPrefix(a, "ASSUMED-CLAUSE:") {
+		return "assumed clause (at call sites only, body not obliged to establish it) " + strings.TrimPrefix(a, "ASSUMED-CLAUSE:")
+	}
+	if strings.HasPrefix(a, "ENTRY-ASSUMPTION:") {
+		return "entry assumption (modelling convention, not an obligation at call sites) " + strings.TrimPrefix(a, "ENTRY-ASSUMPTION:")
 	}
 	return a
 }
